@@ -102,9 +102,9 @@ func vfCheckRemovals(tag string) {
 }
 
 // removing the layers of a deleted / replaced model never removes a blob another manifest references
-func VerifC04RemoveLayers(nMan int) {
+func VerifC04RemoveLayers(nMan int, dashSpelling int) {
 	vfRemoved = nil
-	vfArbStore(nMan, false)
+	vfArbStore(nMan, dashSpelling != 0)
 	// the model being deleted: its manifest is already gone from the store
 	old := &Manifest{}
 	nl := verifChoice(vfMaxLayers + 2)
@@ -117,6 +117,11 @@ func VerifC04RemoveLayers(nMan int) {
 	err := old.RemoveLayers()
 	verifReach("removed")
 	verifAssert(err == nil, "remove-layers-no-error")
+	if dashSpelling != 0 {
+		// known-finding class: the other model spells the digest "sha256-..." (accepted by GetBlobsPath)
+		vfCheckRemovals("blob-still-referenced-by-another-model-is-not-removed@dash-spelled-digest")
+		return
+	}
 	vfCheckRemovals("blob-still-referenced-by-another-model-is-not-removed")
 	// and every unreferenced layer of the deleted model is removed
 	for _, l := range append(old.Layers, old.Config) {
